@@ -83,6 +83,8 @@ type sizeRow struct {
 	FeeVerdict  string `json:"feeVerdict"`
 	SizeVerdict string `json:"sizeVerdict"`
 	Silent      bool   `json:"silent"`
+	// the spec tolerates an over-estimated fee size here (one-directional property)
+	TolerateOver bool `json:"tolerateOver"`
 }
 
 type classRow struct {
@@ -163,6 +165,7 @@ type knobs struct {
 	bodyWide bool   // body map head 0xb8 0x04 instead of 0xa4
 	inIndef  bool   // input list 0x9f .. 0xff instead of 0x81 ..
 	ttlW     int    // bytes of the ttl integer (value 10): 1, 2, 3, 5, 9
+	coinWide bool   // output amount 2000000 in 9 bytes instead of 5
 	feeW     int    // bytes of the fee integer, 0 = shortest
 	filler   int    // auxiliary data {0: bytes(filler)}; -1 = null
 }
@@ -178,6 +181,9 @@ func (k knobs) padOf(fee uint64) int {
 	}
 	if k.inIndef {
 		p++
+	}
+	if k.coinWide {
+		p += 4
 	}
 	if k.feeW != 0 {
 		p += k.feeW - minWidth(fee)
@@ -223,7 +229,11 @@ func buildTx(k knobs, fee uint64) []byte {
 	b.array(1)
 	b.array(2)
 	b.bytes(payAddr)
-	b.uint(2_000_000)
+	if k.coinWide {
+		b.headW(0, 2_000_000, 9)
+	} else {
+		b.uint(2_000_000)
+	}
 	b.uint(2)
 	b.headW(0, fee, k.feeW)
 	b.uint(3)
@@ -270,22 +280,27 @@ func padKnobs(env int, hd string, pad int, rng *rand.Rand) (knobs, bool) {
 		return k, false
 	}
 	type opt struct {
-		ttl    int
-		bw, ii bool
+		ttl        int
+		bw, ii, cw bool
 	}
 	var opts []opt
 	for _, tw := range []int{1, 2, 3, 5, 9} {
 		for _, bw := range []bool{false, true} {
 			for _, ii := range []bool{false, true} {
-				n := tw - 1
-				if bw {
-					n++
-				}
-				if ii {
-					n++
-				}
-				if n == r {
-					opts = append(opts, opt{tw, bw, ii})
+				for _, cw := range []bool{false, true} {
+					n := tw - 1
+					if bw {
+						n++
+					}
+					if ii {
+						n++
+					}
+					if cw {
+						n += 4
+					}
+					if n == r {
+						opts = append(opts, opt{tw, bw, ii, cw})
+					}
 				}
 			}
 		}
@@ -294,7 +309,7 @@ func padKnobs(env int, hd string, pad int, rng *rand.Rand) (knobs, bool) {
 		return k, false
 	}
 	o := opts[rng.Intn(len(opts))]
-	k.ttlW, k.bodyWide, k.inIndef = o.ttl, o.bw, o.ii
+	k.ttlW, k.bodyWide, k.inIndef, k.coinWide = o.ttl, o.bw, o.ii, o.cw
 	return k, true
 }
 
@@ -695,6 +710,8 @@ func sizeSlice(rep *vh.Reporter, rs *reports, rng *rand.Rand, path string, only 
 	}
 	sort.SliceStable(rows, func(i, j int) bool { return sizeKey(&rows[i]) < sizeKey(&rows[j]) })
 	silent := map[string]int{}
+	overSize := map[string]int{}
+	overExample := map[string]any{}
 	noFix := 0
 	sampled := map[string]bool{}
 	for ri := range rows {
@@ -767,7 +784,25 @@ func sizeSlice(rep *vh.Reporter, rs *reports, rng *rand.Rand, path string, only 
 			wantSize := int(r.Size + d)
 			wantMin := big.NewInt(r.MinFee + r.A*d)
 			szKey := fmt.Sprintf("txsize:era=%s:env=%d:hd=%s:pad=%d", r.Era, r.Env, r.Hd, r.Pad)
-			checkFee(rs, era, o, szKey, feeKey, r.FeeVerdict, wantSize, wantMin, replay)
+			if r.TolerateOver && o.txSizeErr == nil && o.txSize > wantSize {
+				// over-estimated size: the minimum is only higher. Recorded, and
+				// the one direction the property states is still enforced: no
+				// acceptance below the stated minimum.
+				ok := fmt.Sprintf("%s env=%d hd=indef: TxSizeForFee = length%s (specification: length%s)", r.Era, r.Env,
+					rel(int64(o.txSize-L)), rel(int64(wantSize-L)))
+				overSize[ok]++
+				if overExample[r.Era] == nil && r.A > 0 && r.Fee == r.MinFee && o.feeRule == "tooSmall" {
+					overExample[r.Era] = map[string]any{"case": caseKey, "tx": replay["tx_cbor"], "concrete": replay["concrete"],
+						"TxSizeForFee": o.txSize, "spec_size": wantSize, "MinFeeTx": o.minFee, "spec_minfee": wantMin.String(),
+						"fee_rule": o.feeRule + " (" + o.feeErr + ")", "spec_fee_verdict": r.FeeVerdict}
+				}
+				if r.FeeVerdict == "tooSmall" && (o.feeRule == "accept" || o.listFee == "accept") {
+					rs.disagree(feeKey+":at=feerule", fmt.Sprintf("%s: fee below the stated minimum accepted (feerule %s, list %s; %v)",
+						era.name, o.feeRule, o.listFee, replay["concrete"]), replay)
+				}
+			} else {
+				checkFee(rs, era, o, szKey, feeKey, r.FeeVerdict, wantSize, wantMin, replay)
+			}
 		}
 		checkMax(rs, era, o, maxKey, r.SizeVerdict, replay)
 		sk := r.Era + r.Hd
@@ -781,6 +816,13 @@ func sizeSlice(rep *vh.Reporter, rs *reports, rng *rand.Rand, path string, only 
 	}
 	if len(silent) > 0 {
 		rep.Extra["silent_cases_observed "+only] = silent
+	}
+	if len(overSize) > 0 {
+		rep.Extra["observation_indefinite_envelope_size_over_estimated "+only] = map[string]any{
+			"what": "common.TxSizeForFee cannot read an indefinite envelope head (0x9f .. 0xff) and keeps |orig| instead of |orig|-1 for " +
+				"Alonzo..Conway: MinFeeTx is `a` too high and a fee of exactly a*(|orig|-1)+b is rejected; over-rejection only " +
+				"(nothing is accepted below the stated minimum), so not a violation of the one-directional property",
+			"cases": overSize, "examples": overExample}
 	}
 	if noFix > 0 {
 		rep.Extra["size_cases_without_fee_width_fixed_point "+only] = noFix
